@@ -204,7 +204,9 @@ def run_histories(tag, cases, variant="fixed"):
         raise RuntimeError("model evaluation failed: " + err[-1200:])
     outl = []
     for case, o, m in zip(cases, obs, res):
-        if o.get("harness_panic"):
+        if m == MODEL_TIMEOUT:
+            outl.append((case, o, "MODEL-TIMEOUT", None))
+        elif o.get("harness_panic"):
             outl.append((case, o, "HARNESS-PANIC", model_set(m)))
         else:
             outl.append((case, o, strip_drop(impl_string(o)).strip(), model_set(m)))
@@ -306,9 +308,12 @@ def job_check(P, tier, seed, monitor, extra_cases=None):
             c.errors.append("model evaluation failed: " + err[-800:])
             return c
         for cs_, b in zip(cases, bres):
-            cs_["_bound"] = int(b)
+            cs_["_bound"] = int(b) if b not in (None, MODEL_TIMEOUT) else None
     outcomes = 0
     for case, o, impl, ms in res:
+        if ms is None:
+            c.count("model-exploration-too-expensive(skipped)")
+            continue
         c.evaluations += 1
         outcomes = max(outcomes, len(ms))
         names = [op["op"] for op in case["ops"]]
